@@ -38,13 +38,15 @@ pub fn fixed_data() -> RV {
         items.push((format!("i_{}", if i < 0 { format!("m{}", -i) } else { i.to_string() }), RV::Int(i)));
     }
     items.push(("n".into(), obj(vec![("i", RV::Int(1)), ("k", st("k"))])));
+    items.push(("u".into(), obj(vec![(&*format!("x{}", "é".repeat(40)), st("long-key-leaf")), ("k", leaves("UK", 1))])));
+    items.push(("lv".into(), st(&format!("x{}", "é".repeat(40)))));
     items.push(("kv".into(), st("k")));
     items.push(("sv".into(), st("size")));
     items.push(("fv".into(), st("first")));
     RV::Obj(items)
 }
 
-const BASES: [&str; 9] = ["a0", "a1", "a2", "a3", "a5", "o", "aa", "p", "nope"];
+const BASES: [&str; 10] = ["a0", "a1", "a2", "a3", "a5", "o", "aa", "p", "nope", "u"];
 
 fn step_pool() -> Vec<Step> {
     let mut v = Vec::new();
@@ -63,7 +65,9 @@ fn step_pool() -> Vec<Step> {
         v.push(Step::Idx(Expr::str(k)));
     }
     v.push(Step::Idx(Expr::Lit(Lit::Str("k".into(), true))));
-    for name in ["kv", "sv", "fv", "undefined_index"] {
+    v.push(Step::Idx(Expr::str(&format!("x{}", "é".repeat(40)))));
+    v.push(Step::Idx(Expr::str(&format!("y{}", "é".repeat(40)))));
+    for name in ["kv", "sv", "fv", "lv", "undefined_index"] {
         v.push(Step::Idx(Expr::var(name)));
     }
     v
@@ -187,7 +191,7 @@ fn any_data_and_path() -> BoxedStrategy<PathCase> {
 }
 
 pub fn run(ctx: &Ctx) {
-    ctx.set_rule("E2: every path of 1..3 steps (thorough: a strided slice of 4 steps) from 9 base variables (arrays of length 0,1,2,3,5; an object owning its own size/first/integer-looking keys; nested arrays-in-objects-in-arrays; an undefined name) over a 43-step pool: .key (existing, missing, size/first/last), [i] for every literal i in -7..6, [var] holding -3..3, [nested.path], ['key'] in both quote styles, [var] holding a key or special name, [undefined]; leaves are distinct tagged strings. Literals: integers at the 64-bit boundaries, signed/zero-padded forms and a log-spaced sweep, decimals with 1..6 fraction digits, strings in both quote styles over the full text generator without the closing quote, true/false/nil. E1: random nested data with guided random walks. Oracle: reference interpreter (Ok(value) / Err). Non-trivial = path of >= 2 steps or a negative / out-of-range / special step; distinct by path.");
+    ctx.set_rule("E2: every path of 1..3 steps (thorough: a strided slice of 4 steps) from 10 base variables (arrays of length 0,1,2,3,5; an object owning its own size/first/integer-looking keys; nested arrays-in-objects-in-arrays; an undefined name) over a 46-step pool (incl. 40-character non-ASCII keys, present and absent: error messages echo them): .key (existing, missing, size/first/last), [i] for every literal i in -7..6, [var] holding -3..3, [nested.path], ['key'] in both quote styles, [var] holding a key or special name, [undefined]; leaves are distinct tagged strings. Literals: integers at the 64-bit boundaries, signed/zero-padded forms and a log-spaced sweep, decimals with 1..6 fraction digits, strings in both quote styles over the full text generator without the closing quote, true/false/nil. E1: random nested data with guided random walks. Oracle: reference interpreter (Ok(value) / Err). Non-trivial = path of >= 2 steps or a negative / out-of-range / special step; distinct by path.");
     ctx.assume("printing an object, an integer-looking string used as an array index and .size of a non-ASCII string are not compared");
     let pool = step_pool();
     let data = fixed_data();
